@@ -5,6 +5,7 @@ import DivanModel.Driver.C18
 import DivanModel.Driver.C16
 import DivanModel.Driver.Reg
 import DivanModel.Driver.Bench
+import DivanModel.Driver.Paint
 /-! Line-protocol driver. One request per line: `verb args…<TAB>implementation observation`.
     One answer per line: `model observation<TAB>spec verdict on the implementation's observation<TAB>branch tag`. -/
 open Driver
@@ -16,6 +17,7 @@ def dispatch (verb : String) (args : List String) (obs : String) : Option Reply 
   | "fd" | "f64" | "bytes" | "thr" => C18.handle verb args obs
   | "natcmp" | "natcmp3" | "argcmp" | "argsort" => C16.handle verb args obs
   | "bench" => Bench.handle args obs
+  | "paint" => PaintLab.handle args obs
   | "reg" => Reg.handle args obs
   | "ovw" => Reg.handleOvw args obs
   | _ => none
